@@ -20,6 +20,7 @@ import (
 	"github.com/postalsys/muti-metroo/internal/identity"
 	"github.com/postalsys/muti-metroo/internal/peer"
 	"github.com/postalsys/muti-metroo/internal/transport"
+	"github.com/postalsys/muti-metroo/internal/verifrt/simrand"
 	"github.com/postalsys/muti-metroo/internal/verifrt/simrt"
 	"github.com/postalsys/muti-metroo/internal/verifsim/hc"
 )
@@ -90,7 +91,33 @@ func roleName(r int) string {
 	return "acceptor"
 }
 
+// extremeDraws are the 8-byte random values a run may force on the allocator's
+// starting point: legal outcomes of a uniform source that no sampled run would
+// ever see (the sequence must stay nonzero and unique from any of them).
+var extremeDraws = [][8]byte{
+	{0xff, 0xff, 0xff, 0xff, 0xff, 0xff, 0xff, 0xff},
+	{0, 0, 0, 0, 0, 0, 0, 0},
+	{0xff, 0xff, 0xff, 0xff, 0xff, 0xff, 0xff, 0xfe},
+	{0x7f, 0xff, 0xff, 0xff, 0xff, 0xff, 0xff, 0xff},
+	{0x80, 0, 0, 0, 0, 0, 0, 0},
+	{0xff, 0xff, 0xff, 0xff, 0xff, 0xff, 0xff, 0xf0},
+}
+
 func runC38() {
+	simrand.Force = nil
+	if k := simrt.Choose(2*len(extremeDraws), "rand-draw"); k < len(extremeDraws) {
+		d := extremeDraws[k]
+		simrand.Force = func(b []byte) bool {
+			if len(b) != 8 {
+				return false
+			}
+			copy(b, d[:])
+			return true
+		}
+		defer func() { simrand.Force = nil }()
+		simrt.Probe("extreme_random_start")
+		simrt.Eventf("random starting points forced to %x", d[:])
+	}
 	nConns := 1 + simrt.Choose(2, "conns")
 	var ends [][2]*end
 	for c := 0; c < nConns; c++ {
